@@ -23,7 +23,9 @@ import glslprobe
 import glslprogs
 import nagarun
 import ocamlbuild
+import shrink
 import vcheck
+import wgslgen
 
 LEVEL = "proof"
 
@@ -128,9 +130,11 @@ class OncePerKey:
 class Validator:
     """differential validation of a set of programs x option sets x inputs"""
 
-    def __init__(self, ctx, tools, irx, glx, en):
+    def __init__(self, ctx, tools, irx, glx, en, per_program_keys=False):
         ctx = ctx if isinstance(ctx, OncePerKey) else OncePerKey(ctx)
         self.ctx, self.tools, self.irx, self.glx, self.en = ctx, tools, irx, glx, en
+        self.per_program_keys = per_program_keys      # keys of not-own programs carry the program name (generated family)
+        self.workers = 2
         self.stats = {"programs": 0, "entry_points": 0, "texts": 0, "texts_read": 0, "cases": 0, "compared_buffers": 0,
                       "agree": 0, "disagree": 0, "out_of_fragment": 0, "oof_reasons": {}, "ub_skipped": 0,
                       "ir_not_modelled": 0, "illtyped": 0, "layout_blocks": 0, "layout_mismatches": 0,
@@ -146,7 +150,8 @@ class Validator:
         """programs: [(name, src, modes)]; own: True = in-fragment by construction (OOF/UB are violations)"""
         ctx = self.ctx
         # 1. compile under the first option set to get the IR (independent of GLSL options), then under all
-        base = glslcorr.compile_jobs(self.tools, [{"id": i, "src": p[1], "opts": {"version": 430}} for i, p in enumerate(programs)])
+        base = glslcorr.compile_jobs(self.tools, [{"id": i, "src": p[1], "opts": {"version": 430}} for i, p in enumerate(programs)],
+                                     workers=min(4, self.workers))
         jobs = []
         for i, p in enumerate(programs):
             r = base.get(i) or {}
@@ -162,7 +167,7 @@ class Validator:
                 continue
             for oi, o in enumerate(option_sets):
                 jobs.append({"id": "%d/%d" % (i, oi), "src": p[1], "opts": opts_for(o, r["ir"])})
-        res = glslcorr.compile_jobs(self.tools, jobs, want=())      # (the IR dump of the base compile is reused)
+        res = glslcorr.compile_jobs(self.tools, jobs, want=(), workers=min(4, self.workers))      # (the IR dump of the base compile is reused)
         # 2. build cases
         ircases, irkeys = [], {}
         glcases, glmeta = [], []
@@ -185,23 +190,24 @@ class Validator:
                         self.stats["entry_points"] += 1
                     tag = "%s:%s:v%s" % (name, ep["name"], o["version"])
                     if "text" not in ep:
-                        if own:
+                        if own or self.per_program_keys:      # (own and generated programs use nothing the back end may refuse)
                             ctx.violation("glsl.Compile failed on own program %s entry %s (%s): %s" % (name, ep["name"], o, ep.get("err")),
-                                          files={"input.wgsl": src}, key="glsl_err:%s:%s" % (name, norm_msg(str(ep.get("err")))))
+                                          files={"input.wgsl": src, "case.json": json.dumps({"program": name, "entry": ep["name"], "opts": o})}, key="glsl_err:%s:%s" % (name, norm_msg(str(ep.get("err")))))
                         else:
                             self.oof("glsl.Compile error: " + str(ep.get("err")))
                         continue
                     st, parsed = glslcorr.read_glsl(ep["text"])
+                    casej = json.dumps({"program": name, "entry": ep["name"], "opts": o})
                     if st == "illformed":
                         ctx.violation("the GLSL emitted for %s is not a program: %s" % (tag, parsed),
-                                      files={"input.wgsl": src, "output.glsl": ep["text"]},
+                                      files={"input.wgsl": src, "output.glsl": ep["text"], "case.json": casej},
                                       key="illformed:%s:%s" % (name, norm_msg(parsed)))
                         continue
                     if st != "ok":
                         if own or st == "bad":
                             ctx.violation("the reader cannot read the GLSL emitted for %s (%s): %s" % (tag, st, parsed),
-                                          files={"input.wgsl": src, "output.glsl": ep["text"]},
-                                          key="unreadable:%s:%s" % (name if own else "corpus", norm_msg(parsed)),
+                                          files={"input.wgsl": src, "output.glsl": ep["text"], "case.json": casej},
+                                          key="unreadable:%s:%s" % (name if own or self.per_program_keys else "corpus", norm_msg(parsed)),
                                           broken="reader coverage / emitted text outside the GLSL subset")
                         else:
                             self.oof("reader: " + parsed)
@@ -233,13 +239,14 @@ class Validator:
                                 ircases.append(irin)
                             glcases.append(glin)
                             glmeta.append({"ik": ik, "name": name, "src": src, "ep": ep["name"], "opts": o, "mode": mode, "k": k,
-                                           "compared": compared, "text": ep["text"], "own": own, "irin": irin})
+                                           "compared": compared, "text": ep["text"], "own": own, "irin": irin,
+                                           "builtins": glin["builtins"]})
                         else:
                             continue
                         break
         # 3. run
-        irres = run_parallel(self.irx, ircases)
-        glres = run_parallel(self.glx, glcases)
+        irres = run_parallel(self.irx, ircases, self.workers)
+        glres = run_parallel(self.glx, glcases, self.workers)
         for m, g in zip(glmeta, glres):
             self.judge(m, irres[irkeys[m["ik"]]], g)
 
@@ -307,7 +314,7 @@ class Validator:
         st["cases"] += 1
         tag = "%s:%s %s mode=%s #%d" % (m["name"], m["ep"], m["opts"], m["mode"], m["k"])
         files = {"input.wgsl": m["src"], "output.glsl": m["text"],
-                 "inputs.json": json.dumps({"globals": m["irin"]["globals"], "args": m["irin"]["args"]}),
+                 "inputs.json": json.dumps({"globals": m["irin"]["globals"], "args": m["irin"]["args"], "builtins": m.get("builtins")}),
                  "case.json": json.dumps({"program": m["name"], "entry": m["ep"], "opts": m["opts"], "mode": m["mode"], "k": m["k"]})}
         if not a.get("ok"):
             if a.get("kind") == "outoffuel":
@@ -332,6 +339,8 @@ class Validator:
                                   files=files, key="ub:%s:%s" % (m["name"], norm_msg(msg)))
                 else:
                     st["ub_skipped"] += 1
+                    r = norm_msg(msg)
+                    st.setdefault("ub_reasons", {})[r] = st.setdefault("ub_reasons", {}).get(r, 0) + 1
             elif cls in ("oof", "outoffuel", "decode", "harness", "other"):
                 if m["own"]:
                     ctx.violation("the GLSL interpreter cannot run own program %s: %s %s" % (tag, kind, msg), files=files,
@@ -361,6 +370,262 @@ class Validator:
                 ctx.sample({"program": m["name"], "entry": m["ep"], "options": m["opts"], "mode": m["mode"],
                             "buffers_compared": [b_ for _, b_ in m["compared"]],
                             "first_buffer_after": json.dumps(b["buffers"].get(m["compared"][0][1]) if m["compared"] else None)[:160]})
+
+
+# ---------------------------------------------------------------- generated programs (lib/wgslgen.py)
+
+# The generated family stays clear of the constructs with a recorded C05 finding (they are exercised by the dedicated
+# finding_* programs of lib/glslprogs.py) and of what GLSL leaves undefined (the property's quantifier):
+#   countLeadingZeros / countTrailingZeros templates, abs on u32, select with a vector condition (recorded findings);
+#   integer / and % keep the divisor in 1..65535 and the left operand of a signed % non-negative, integer clamp has
+#   ordered bounds (undefined in GLSL otherwise); the generator already masks shift amounts and clamps float->int operands.
+# Not produced by the generator at all: single-body switches (continue-forwarding finding), abstract-float literals,
+# matCx2 in uniform buffers, @align/@size, atomics.
+GEN_OPTS = {"avoid": ("countLeadingZeros", "countTrailingZeros", "abs:u32"), "vec_select_cond": False,
+            "safe_int_div": True, "ordered_int_clamp": True}
+
+GEN_QUICK, GEN_THOROUGH = 120, 2500
+
+
+def avoid_recorded_findings(prog):
+    """Meaning-preserving rewrite that keeps a generated program clear of a recorded finding, so that the rest of the
+    program is still validated: uses of module-scope `const K: bool` are replaced by the constant's literal value
+    (`K && x` with constant operands is folded to `false` by the GLSL writer: finding_const_logical_fold of
+    lib/glslprogs.py exercises that; with literals the front end folds the expression itself)."""
+    import copy
+    p = copy.deepcopy(prog)
+    bools = {c["n"]: c["e"] for c in p["consts"] if c["t"] == "bool"}
+    if not bools:
+        return p
+
+    def inline(x):
+        if isinstance(x, list):
+            for i, y in enumerate(x):
+                if isinstance(y, dict) and y.get("e") == "var" and y.get("n") in bools:
+                    x[i] = copy.deepcopy(bools[y["n"]])
+                else:
+                    inline(y)
+        elif isinstance(x, dict):
+            for k, y in list(x.items()):
+                if isinstance(y, dict) and y.get("e") == "var" and y.get("n") in bools:
+                    x[k] = copy.deepcopy(bools[y["n"]])
+                else:
+                    inline(y)
+    inline(p["funcs"])
+    inline(p["entry"]["body"])
+    inline(p["globals"])
+    return p
+
+CONTROL = ("if", "switch", "loop", "for", "while", "break", "continue", "return", "callstmt")
+
+
+class Capture:
+    """ctx stand-in: collects what a Validator would report (generated programs are classified, shrunk and keyed on
+    the construct before anything is reported)"""
+
+    def __init__(self, ctx, private=False):
+        self._ctx = ctx
+        self.items = []
+        if private:        # own once-per-key bookkeeping and samples (re-runs of one case while shrinking)
+            self.cov = {"samples": [None] * 8}
+
+    def __getattr__(self, name):
+        return getattr(self._ctx, name)
+
+    def violation(self, what, files=None, found_input=True, key=None, broken=None):
+        self.items.append({"what": what, "files": files or {}, "key": key or what[:80], "broken": broken})
+        return True
+
+
+def coarse_class(key):
+    """`mismatch:gen12:main` -> `mismatch`, `illtyped:gen3:TYPE: ...` -> `illtyped:TYPE: ...` (program name removed)"""
+    parts = key.split(":", 2)
+    if parts[0] == "mismatch":
+        return "mismatch"
+    return parts[0] + (":" + re.sub(r" in \w+ \(", " (", parts[2]) if len(parts) > 2 else "")
+
+
+def skeleton(prog):
+    """what is left of a shrunk program, as a seed-independent signature: the control statements it still contains
+    (+ `continuing` / `break-if` / user calls); for straight-line programs the builtins and operators"""
+    kinds, ops = set(), set()
+
+    def ex(x):
+        if isinstance(x, list):
+            for y in x:
+                ex(y)
+        elif isinstance(x, dict):
+            k = x.get("e")
+            if k == "call":
+                kinds.add("call")
+            elif k == "builtin":
+                ops.add(x["f"])
+            elif k in ("bin", "un"):
+                ops.add(x["op"])
+            elif k in ("conv", "bitcast", "arraylen", "deref"):
+                ops.add(k)
+            for v in x.values():
+                ex(v)
+
+    def st(b):
+        for s_ in b:
+            k = s_.get("s")
+            if k in CONTROL:
+                kinds.add(k)
+            if k == "loop" and s_.get("cont"):
+                kinds.add("continuing")
+            if k == "loop" and s_.get("break_if") is not None:
+                kinds.add("break-if")
+            for f in ("then", "else", "body", "cont"):
+                if isinstance(s_.get(f), list):
+                    st(s_[f])
+            if k == "switch":
+                for c in s_["cases"]:
+                    st(c["body"])
+            if isinstance(s_.get("init"), dict):
+                st([s_["init"]])
+            if isinstance(s_.get("upd"), dict):
+                st([s_["upd"]])
+            ex([s_.get(f) for f in ("e", "l", "c", "break_if", "args")])
+    st(prog["entry"]["body"])
+    for f in prog["funcs"]:
+        st(f["body"])
+    if kinds:
+        return "+".join(sorted(kinds))
+    return "straight-line:" + "+".join(sorted(ops))[:80]
+
+
+class SingleCase:
+    """one (program text, option set, entry point, recorded inputs) -> the class a Validator would put it in"""
+
+    def __init__(self, ctx, tools, irx, glx, en):
+        self.ctx, self.tools, self.irx, self.glx, self.en = ctx, tools, irx, glx, en
+        self.evaluations = 0
+
+    def run(self, src, case, inputs):
+        """-> (class | "quiet" | "nocompile", emitted text or None)"""
+        self.evaluations += 1
+        o = case["opts"]
+        r = glslcorr.compile_jobs(self.tools, [{"id": 0, "src": src, "opts": o if o.get("binding_map") != "all" else {"version": 430}}],
+                                  workers=1).get(0) or {}
+        if "ir" not in r or r.get("validate"):
+            return "nocompile", None
+        if o.get("binding_map") == "all":
+            o = opts_for(o, r["ir"])
+            r2 = glslcorr.compile_jobs(self.tools, [{"id": 0, "src": src, "opts": o}], want=(), workers=1).get(0) or {}
+        else:
+            r2 = r
+        cap = Capture(self.ctx, private=True)
+        v = Validator(cap, self.tools, self.irx, self.glx, self.en, per_program_keys=True)
+        name = case["program"]
+        for epi, ep in enumerate(r2.get("eps") or []):
+            if ep.get("name") != case["entry"]:
+                continue
+            if "text" not in ep:
+                return coarse_class("glsl_err:_:" + norm_msg(str(ep.get("err")))), None
+            st, parsed = glslcorr.read_glsl(ep["text"])
+            if st != "ok":
+                return coarse_class({"illformed": "illformed", "bad": "unreadable", "oof": "oof"}[st] + ":_:" + norm_msg(parsed)), ep["text"]
+            try:
+                irin, glin, compared = glslcorr.build_case(r["ir"], self.en, epi, parsed, ep["info"], self.ctx.rng.fork("single"), "small", 8)
+            except ValueError:
+                return "noinputs", ep["text"]
+            if inputs is not None:
+                if len(inputs["globals"]) != len(irin["globals"]):
+                    return "noinputs", ep["text"]
+                irin["globals"], irin["args"] = inputs["globals"], inputs["args"]
+                if inputs.get("builtins"):
+                    glin["builtins"] = {k: x for k, x in inputs["builtins"].items() if k in glin["builtins"]}
+                uniforms = (ep.get("info") or {}).get("Uniforms") or []
+                for gi, g in enumerate(r["ir"]["GlobalVariables"]):
+                    blk = glslcorr.block_of_global(uniforms, g)
+                    if blk in glin["buffers"] and inputs["globals"][gi] is not None:
+                        glin["buffers"][blk] = inputs["globals"][gi]
+            a = vcheck.run_model(self.irx, [irin])[0]
+            b = vcheck.run_model(self.glx, [glin])[0]
+            v.judge({"ik": None, "name": name, "src": src, "ep": ep["name"], "opts": case["opts"], "mode": "small", "k": 0,
+                     "compared": compared, "text": ep["text"], "own": False, "irin": irin, "builtins": glin["builtins"]}, a, b)
+            if cap.items:
+                return coarse_class(cap.items[0]["key"]), ep["text"]
+            return "quiet", ep["text"]
+        return "nocompile", None
+
+
+def generated_leg(ctx, tools, irx, glx, en, n_programs, n_inputs, option_sets_of):
+    """N programs of the shared typed generator, compiled to GLSL and executed on both sides like the hand-written ones.
+    Outside the reader's / interpreters' fragment or on GLSL-undefined executions: counted.  Anything else a Validator
+    would report is shrunk (lib/shrink.py, under a budget) and reported under a key made of the class of the
+    disagreement and the control skeleton of the shrunk program - never the program's number."""
+    import time
+    r = ctx.rng.fork("c05gen")
+    progs = {}
+    groups = {}
+    for k in range(n_programs):
+        prog = avoid_recorded_findings(wgslgen.generate(r.fork("p%d" % k), GEN_OPTS)[0])
+        src = wgslgen.render(prog)
+        name = "gen%d" % k
+        progs[name] = prog
+        groups.setdefault(option_sets_of(k), []).append((name, src, ("small", "boundary")))
+    cap = Capture(ctx)
+    v = Validator(cap, tools, irx, glx, en, per_program_keys=True)
+    v.workers = 8          # (many small independent runs: the batches are large enough to amortise process start-up)
+    for osets, ps in sorted(groups.items()):
+        v.validate(ps, [OPTION_SETS[i] for i in osets], n_inputs, own=False)
+    stats = dict(v.stats)
+    stats["generated"] = n_programs
+    stats["rejected_by_naga"] = n_programs - v.stats["programs"]
+    feats = {}
+    for prog in progs.values():
+        for f in skeleton(prog).split("+"):
+            feats[f] = feats.get(f, 0) + 1
+    stats["programs_with_statement_kind"] = feats
+    # programs naga rejects are valid by construction: a front-end matter (C08/C09/C10 look at those), counted here
+    by_class = {}
+    for it in cap.items:
+        by_class.setdefault(coarse_class(it["key"]), []).append(it)
+    stats["reported_classes"] = {c: len(l) for c, l in by_class.items()}
+    sc = SingleCase(ctx, tools, irx, glx, en)
+    t_end = time.time() + ctx.scale(240, 1200)
+    for cls, items in sorted(by_class.items())[:6]:
+        it = items[0]
+        files = dict(it["files"])
+        case = json.loads(files.get("case.json") or "null")
+        key = "generated:%s" % cls
+        if case and case["program"] in progs:
+            inputs = json.loads(files["inputs.json"]) if "inputs.json" in files else None
+            small = progs[case["program"]]
+            budget = [ctx.scale(260, 1200)]
+
+            def still(p):
+                if budget[0] <= 0 or time.time() > t_end:
+                    return False
+                budget[0] -= 1
+                return sc.run(wgslgen.render(p), case, inputs)[0] == cls
+            try:
+                if still(small):
+                    small = shrink.shrink(small, still, max_rounds=3)
+                    for f in list(small["funcs"]):           # helpers that play no part
+                        trial = dict(small, funcs=[g for g in small["funcs"] if g is not f])
+                        if still(trial):
+                            small = trial
+                    ssrc = wgslgen.render(small)
+                    files["original.wgsl"] = files.get("input.wgsl", "")
+                    files["input.wgsl"] = ssrc
+                    text = sc.run(ssrc, case, inputs)[1]
+                    if text:
+                        files["original_output.glsl"] = files.get("output.glsl", "")
+                        files["output.glsl"] = text
+                    key += ":" + skeleton(small)
+                else:
+                    key += ":not-reproduced-alone"
+            except Exception as e:          # the report must not be lost to a shrinking problem
+                key += ":unshrunk"
+                files["shrink_error.txt"] = repr(e)
+        ctx.violation("generated program (%d of %d programs in this class; shrunk input in input.wgsl): %s"
+                      % (len({json.loads(x["files"].get("case.json") or '{"program": ""}')["program"] for x in items}), n_programs, it["what"]),
+                      files=files, key=key, broken=it["broken"])
+    stats["shrink_evaluations"] = sc.evaluations
+    return stats, v.distinct
 
 
 def search_probe_disagreement(ctx, tools, irx, glx, en, limit):
@@ -411,6 +676,8 @@ def replay(ctx, tools, irx, glx, en):
         irin, glin, compared = glslcorr.build_case(r["ir"], en, epi, parsed, ep["info"], ctx.rng.fork("replay"), "small", 8)
         if inputs:
             irin["globals"], irin["args"] = inputs["globals"], inputs["args"]
+            if inputs.get("builtins"):
+                glin["builtins"] = {k: x for k, x in inputs["builtins"].items() if k in glin["builtins"]}
             uniforms = (ep.get("info") or {}).get("Uniforms") or []
             for gi, g in enumerate(r["ir"]["GlobalVariables"]):
                 blk = glslcorr.block_of_global(uniforms, g)
@@ -521,13 +788,21 @@ def run(ctx):
     vc = Validator(ctx, tools, irx, glx, en)
     vc.validate(corp, [OPTION_SETS[0], OPTION_SETS[1]] if not ctx.thorough else OPTION_SETS[:4], ctx.scale(1, 3), own=False)
     lap("validate_corpus")
+    # generated programs (shared typed generator): quick = each under one base profile (desktop / ES alternating);
+    # thorough = both base profiles and one of the richer option sets
+    if ctx.thorough:
+        gstats, gdistinct = generated_leg(ctx, tools, irx, glx, en, GEN_THOROUGH, 3, lambda k: (0, 1, 2 + k % (len(OPTION_SETS) - 2)))
+    else:
+        gstats, gdistinct = generated_leg(ctx, tools, irx, glx, en, GEN_QUICK, 1, lambda k: (k % 2,))
+    lap("validate_generated")
     ctx.cov["validation_own_programs"] = own_stats
     ctx.cov["validation_corpus"] = vc.stats
-    ctx.cov["programs"] = own_stats["programs"] + vc.stats["programs"]
-    ctx.cov["disagreements_checked"] = own_stats["cases"] + vc.stats["cases"]
-    ctx.cov["evaluations"] = own_stats["cases"] + vc.stats["cases"] + (gl or {}).get("rows", 0)
-    ctx.cov["distinct_nontrivial"] = len(v.distinct) + len(vc.distinct)
-    ctx.cov["traces_validated_against_impl"] = own_stats["agree"] + vc.stats["agree"]
+    ctx.cov["validation_generated"] = gstats
+    ctx.cov["programs"] = own_stats["programs"] + vc.stats["programs"] + gstats["programs"]
+    ctx.cov["disagreements_checked"] = own_stats["cases"] + vc.stats["cases"] + gstats["cases"]
+    ctx.cov["evaluations"] = own_stats["cases"] + vc.stats["cases"] + gstats["cases"] + (gl or {}).get("rows", 0)
+    ctx.cov["distinct_nontrivial"] = len(v.distinct) + len(vc.distinct) + len(gdistinct)
+    ctx.cov["traces_validated_against_impl"] = own_stats["agree"] + vc.stats["agree"] + gstats["agree"]
     ctx.cov["rule"] = ("operator table: one probe per (operator, kind, shape, profile), all must be classified by the Coq obligation; "
                        "whole programs: (program, entry point, option set, input) executed by irrun and glslrun, final storage buffers "
                        "compared; distinct = distinct (program, entry point, input buffer contents) that ran to completion on both sides; "
